@@ -254,6 +254,16 @@ class WorldA:
             info = fn(op) or {}
             self.tr.ev(op["op"], info.get("status", "ok"))
             self.tr.count(f"status:{op['op']}:{info.get('status', 'ok')}")
+            if op.get("quiet") and "born" not in info and not info.get("restart"):
+                # no observation after this operation: the oracles evaluate circuits, and an
+                # evaluation is itself an event of the history (lazily materialised state would
+                # never be seen un-materialised otherwise).  The next operation's checks - and the
+                # final ones - still see everything.
+                self.tr.count("quiet-ops")
+                for h in self.hooks:
+                    if getattr(h, "always", False):
+                        h(self, op, info)
+                continue
             if info.get("status", "ok") != "noop":
                 self.after(op, info)
         self.tr.step = len(self.plan["ops"])
@@ -991,6 +1001,26 @@ class WorldA:
                 if c.name in d.srcs:
                     pass  # relations of circuits derived from c are re-evaluated against c as it is
         return {"status": "ok", "mutated": list(c.bases), "recheck": True}
+
+    def op_query(self, op: dict[str, Any]) -> dict[str, Any]:
+        """A read-only marginal query on a compiled circuit (``IntegrateQuery``): nothing it does
+        may change what the circuit computes, stores or lists in its state dictionary."""
+        from cirkit.backend.torch.queries import IntegrateQuery
+        from cirkit.utils.scope import Scope
+
+        c = self.get(op["target"])
+        if c is None or len(c.cc.scope) == 0:
+            return {"status": "noop"}
+        rng = random.Random(op["seed"])
+        X = recipes.probe_inputs(rng, c.domain, c.num_vars, 2)
+        vs = [v for v in sorted(c.cc.scope) if rng.random() < 0.6] or [sorted(c.cc.scope)[0]]
+        try:
+            with torch.no_grad():
+                IntegrateQuery(c.cc)(torch.from_numpy(X), integrate_vars=Scope(vs))
+        except Exception as e:
+            self.tr.count(f"query:refused:{type(e).__name__}")
+            return {"status": "refused", "recheck": True}
+        return {"status": "ok", "recheck": True}
 
     def op_recompile(self, op: dict[str, Any]) -> dict[str, Any]:
         c = self.get(op["target"])
